@@ -788,10 +788,97 @@ def _remove_def(tree, helper):
     return False
 
 
+def load_baseline_globals():
+    p = os.path.join(_HERE, 'baseline_globals.txt')
+    with open(p, encoding='utf-8') as f:
+        return frozenset(l.strip() for l in f if l.strip())
+
+
+_MUTATORS = {'append', 'extend', 'insert', 'pop', 'popitem', 'remove', 'clear', 'update', 'setdefault', 'sort', 'reverse',
+             'add', 'discard', 'move_to_end', '__setitem__', '__delitem__'}
+
+
+def inline_new_module_constants(tree, short, baseline=None):
+    """a module-level name that is not in the confirmed inventory (``baseline_globals.txt``), is
+    bound exactly once to a tuple / dict display of names, dotted names and constants, and is only
+    ever read (no store through it, no mutating method, never handed on as a bare value) is a
+    hoisted literal: its uses inside functions are replaced by the display, so that the rules see
+    the function as it was written before the constant was named.  -> list of inlined names"""
+    if baseline is None:
+        baseline = load_baseline_globals()
+    cands = {}
+    for st in tree.body:
+        if isinstance(st, ast.Assign) and len(st.targets) == 1 and isinstance(st.targets[0], ast.Name):
+            nm, v = st.targets[0].id, st.value
+            if '%s.%s' % (short, nm) in baseline:
+                continue
+            def simple(e):
+                return isinstance(e, (ast.Name, ast.Constant)) or (isinstance(e, ast.Attribute) and simple(e.value))
+            if isinstance(v, ast.Tuple) and v.elts and all(simple(e) for e in v.elts) and len(v.elts) <= 40:
+                cands[nm] = v
+            elif isinstance(v, ast.Dict) and v.keys and all(k is not None and simple(k) for k in v.keys) \
+                    and all(simple(x) for x in v.values) and len(v.keys) <= 40:
+                cands[nm] = v
+    if not cands:
+        return []
+    stores, bad = {}, set()
+    parents = {}
+    for n in ast.walk(tree):
+        for c in ast.iter_child_nodes(n):
+            parents[c] = n
+    for n in ast.walk(tree):
+        if isinstance(n, ast.Name) and n.id in cands:
+            if not isinstance(n.ctx, ast.Load):
+                stores[n.id] = stores.get(n.id, 0) + 1
+                continue
+            par = parents.get(n)
+            if isinstance(par, ast.Attribute) and par.value is n:
+                gp = parents.get(par)
+                if par.attr in _MUTATORS or par.attr == 'get' or not isinstance(par.ctx, ast.Load) \
+                        or not (isinstance(gp, ast.Call) and gp.func is par):
+                    bad.add(n.id)
+            elif isinstance(par, ast.Subscript) and par.value is n:
+                gp = parents.get(par)
+                if not isinstance(par.ctx, ast.Load):
+                    bad.add(n.id)
+                elif isinstance(gp, ast.Call) and gp.func is par:
+                    bad.add(n.id)       # a dispatch table: left to the dispatch normal form
+            elif isinstance(par, ast.Compare) and n in par.comparators and all(isinstance(o, (ast.In, ast.NotIn)) for o in par.ops):
+                pass
+            elif isinstance(par, (ast.For, ast.comprehension)) and par.iter is n:
+                pass
+            else:
+                bad.add(n.id)       # handed on as a value: identity may matter
+        elif isinstance(n, (ast.Global, ast.Nonlocal)) and set(n.names) & set(cands):
+            bad |= set(n.names)
+        elif isinstance(n, ast.arg) and n.arg in cands:
+            bad.add(n.arg)
+    ok = {nm for nm in cands if stores.get(nm, 0) == 1 and nm not in bad}
+    # a local of the same name anywhere shadows it: leave those alone
+    if not ok:
+        return []
+
+    class Put(ast.NodeTransformer):
+        def visit_Name(self, n):
+            if n.id in ok and isinstance(n.ctx, ast.Load):
+                return ast.copy_location(copy.deepcopy(cands[n.id]), n)
+            return n
+    done = set()
+    for st in tree.body:
+        if isinstance(st, (ast.FunctionDef, ast.AsyncFunctionDef, ast.ClassDef)):
+            before = ast.dump(st)
+            Put().visit(st)
+            if ast.dump(st) != before:
+                done |= {nm for nm in ok}
+    ast.fix_missing_locations(tree)
+    return sorted(done)
+
+
 def inline_new_helpers(tree, short, baseline=None):
     """mutates and returns ``tree``; ``tree._inlined`` lists (helper qualname, sites, dropped)"""
     if baseline is None:
         baseline = load_baseline()
+    inline_new_module_constants(tree, short)
     log = []
     _FRESH[0] = 0
     for _ in range(MAX_DEPTH):
